@@ -21,9 +21,25 @@ for pid in ids:
     if not os.path.exists(ep):
         out.append(f'| {pid} | (no evidence yet) | | | |'); continue
     e = json.load(open(ep)); c = e['coverage']
-    th = [t.split('.')[-1] for t in c.get('theorems', [])]
+    full = c.get('theorems', [])
+    groups = {}
+    for t in full:
+        parts = t.split('.')
+        groups.setdefault(parts[-2] if len(parts) > 1 else '?', []).append(parts[-1])
+    # names of the property theorems proper (Props/Cxx.lean); for the translated-definition modules
+    # (CxxT*, C03L) only the count - their names are in the evidence file
+    cell = []
+    for g, names in groups.items():
+        if g == pid:
+            cell.append(f"{len(names)}: " + ', '.join(f'`{t}`' for t in names))
+        else:
+            cell.append(f"+ {len(names)} in `Props/{g}`")
+    th = full
     st = '; '.join(f"{k}: {v.get('evaluations',0)}" for k, v in c.get('streams', {}).items())
-    out.append(f"| {pid} | {len(th)}: " + ', '.join(f'`{t}`' for t in th) + f" | {st} | {', '.join(known.get(pid, [])) or '—'} | {'; '.join(seeds.get(pid, [])) or '—'} |")
+    sv = seeds.get(pid, [])
+    caught = sum(1 for x in sv if x.endswith('CAUGHT'))
+    sd = f"{caught} of {len(sv)} caught" + ('' if caught == len(sv) else ' (' + '; '.join(x for x in sv if not x.endswith('CAUGHT')) + ')')
+    out.append(f"| {pid} | {len(th)} obligations — " + ' '.join(cell) + f" | {st} | {', '.join(known.get(pid, [])) or '—'} | {sd} |")
 txt = '\n'.join(out)
 s = open('DESIGN.md').read()
 if '<!-- STATUS:BEGIN -->' in s:
